@@ -186,6 +186,22 @@ func fixup(t *rapid.T, s *wset) {
 			}
 		}
 	}
+	if k == serviceKind {
+		// telemetry.Config.Validate: readers must exist unless level is none; views need level detailed
+		readers, views, level := "telemetry::metrics::readers", "telemetry::metrics::views", "telemetry::metrics::level"
+		noReaders := s.has(readers) && len(s.m[readers].V.E) == 0
+		if noReaders {
+			s.del(views)
+			s.set(level, vText("none"), "")
+		} else if s.has(views) {
+			s.set(level, vText("detailed"), "")
+		}
+		for _, q := range []string{readers, views, level} {
+			if s.has(readers) || s.has(views) {
+				s.label(q, "telemetry::metrics")
+			}
+		}
+	}
 	switch k.name() {
 	case "exporters/otlp":
 		if !s.has("endpoint") {
@@ -248,6 +264,33 @@ func genWrites(t *rapid.T, k *compKind, density int) []Write {
 	return s.writes()
 }
 
+// genList draws a list value: n elements, each with only a few of its keys written.
+func genList(t *rapid.T, n *schemaNode, elems int) Val {
+	v := Val{K: "list", E: [][]Write{}}
+	for i := 0; i < elems; i++ {
+		es := newWset(n.Elem)
+		if len(n.Elem.Nodes) > 0 {
+			genNode(t, es, n.Elem.Nodes[0], rapid.SampledFrom([]int{4, 10, 25}).Draw(t, "elem-density"))
+		}
+		ws := es.writes()
+		if ws == nil {
+			ws = []Write{}
+		}
+		v.E = append(v.E, ws)
+	}
+	return v
+}
+
+// genFocusedList writes exactly one list setting with the given number of elements.
+func genFocusedList(t *rapid.T, k *compKind, list string, elems int) []Write {
+	s := newWset(k)
+	if n := k.byPath[list]; n != nil && n.Kind == kList {
+		s.set(list, genList(t, n, elems), "")
+	}
+	fixup(t, s)
+	return s.writes()
+}
+
 // genFocused writes exactly one chosen leaf (plus whatever validity requires).
 func genFocused(t *rapid.T, k *compKind, leaf string) []Write {
 	s := newWset(k)
@@ -271,6 +314,10 @@ func genNode(t *rapid.T, s *wset, n *schemaNode, density int) {
 			}
 			if chance(t, "w:"+c.key(), d) {
 				s.set(c.key(), c.gen(t), "")
+			}
+		case kList:
+			if chance(t, "l:"+c.key(), density+5) {
+				s.set(c.key(), genList(t, c, rapid.IntRange(0, 3).Draw(t, "elems")), "")
 			}
 		case kStruct:
 			if c.ListElem {
